@@ -12,72 +12,84 @@ Definition show_fres (r : fres) : string :=
   end.
 Definition check (rs : list rune) : string := digest (show_fres (format_res rs)).
 Definition full (rs : list rune) : string := show_fres (format_res rs).
-Eval vm_compute in ("<<<M1397>>>" ++ check (runes_of_ascii "packet A {
-    @rightPad('0')
-    repeat i8i8 {
-        zchar[007] packetx,
-        metadata `" ++ [28040; 24687; 31867; 22411]%N ++ runes_of_ascii "`,
-        repeat float64 T,
-    },
-    @tag(0)
-    Z9_ {
-        int @lengthOf(tag) `line1
-        line2`,
-        repeat i8i8 {
-            zchar[00] stringy,
-            repeat f32a {
-                match i64_ as string_ {
-                    [255, ""{,}"", 0123456789] : x_y_z,
-                    """ ++ [233]%N ++ runes_of_ascii "t" ++ [233]%N ++ runes_of_ascii """ : A,
-                    ""`tick`"" : len,
-                },
-            },
-            //
-            repeat u8x {
-                u16 Z9_ @calculatedFrom(""" ++ [128512]%N ++ runes_of_ascii """) `line1
-                line2`,
-                f32 matchKey,
-            },// " ++ [27880; 37322]%N ++ runes_of_ascii "
-            float64 u8x `
-            `,
-        },//
-    },// `tick` ""quote"" 'q'
-    a1 {
-        repeat zchar[007] Foo `two words`,
-        f32a @calculatedFrom(""" ++ [28040; 24687]%N ++ runes_of_ascii """),
-        int64 i64_ @calculatedFrom(""`tick`""),
-    },
-    @lengthOf(Header)
-    f32 stringy @calculatedFrom(""x y"") `say ""hi""`,
-    Foo,
-    float64 BodyLength @calculatedFrom(""packet""),
-    uint32 int,
-}
-
-packet string_ {
-    @tag(4294967296)
-    repeat u `two words`,
-    repeat zchar[0] BodyLength,
-    @tag(255)
-    /// triple
-    int `line1
-    line2`,
-    uint8x `it's`,
-    @tag(65535)
-    int8 metadata `" ++ [233]%N ++ runes_of_ascii "`,/// triple
-    match options1 as float {
-        3 : f32a,
-        """ ++ [28040; 24687]%N ++ runes_of_ascii """ : charz,
-    },
-    match uint8x as string_ {
-        ""CRC32"" : x,
-    },
-    uint8 packetx `crlf
-    line`,
-    @leftPad()
-    zchar[0] Foo `say ""hi""`,
-}")).
-Eval vm_compute in ("<<<M1774>>>" ++ check (runes_of_ascii "
+Eval vm_compute in ("<<<M198>>>" ++ check (runes_of_ascii "root packet int {
+// @lengthOf(
+// " ++ [27880; 37322]%N ++ runes_of_ascii "
+@calculatedFrom( ""packet"")match repeatCount as asx {// packet A { u8 x, }
+65535:int ,
+"""":
+    packetx
+, [ 1, ""it's"", 007 , 3,
+    ""a\\"" , 65535 ] : o,
+[ 7 , 1 ]:
+    len [ ""abc""	,""" ++ [28040; 24687]%N ++ runes_of_ascii """ ] : u
+,} ,// packet A { u8 x, }
+@rightPad ( ' ' ) // " ++ [27880; 37322]%N ++ runes_of_ascii "
+len
+    body `{ , }` , }packet repeatCount { string
+trueish
+,@tag(
+0 )	repeat
+tag/// triple
+`{ , }` , // `tick` ""quote"" 'q'
+@tag(255 // @lengthOf(
+) match packetx as
+string_
+    {
+10 :roots, }//
+,
+@leftPad
+(
+'\x00'	)
+    @tag( 7 ) repeat i8 // packet A { u8 x, }
+rootA
+/// triple
+// " ++ [128512]%N ++ runes_of_ascii " emoji
+`it's` , uint8x tag`a\` ,
+char[] Z9_ @calculatedFrom( //x
+""" ++ [233]%N ++ runes_of_ascii "t" ++ [233]%N ++ runes_of_ascii """
+    )
+, repeat float32
+trueish	, @leftPad ( /// triple
+'\x00'	)	i64_
+    @calculatedFrom( ""x y""
+    ) //
+, repeat f32 Packet ,  }
+    packet u
+    // c
+    {int64 pack@lengthOf(metadata ) ,	repeat
+    char[//	t
+0123456789 ] int
+    ``
+    , @lengthOf(
+    Header  )@calculatedFrom(""`tick`""
+)	float
+    trueish , @calculatedFrom(	""`tick`""
+    // a // b
+    ) stringy ,// " ++ [128512]%N ++ runes_of_ascii " emoji
+repeat Logon  `it's`  ,
+int32  Z9_ @calculatedFrom(
+""\n""), match// c
+u8x as falsey {
+255 : f32a ,
+00:packetx
+, } ,
+zchar[	0 ] roots , @tag( 00) Logon {
+    i64_
+@lengthOf( MetaDataX //
+) ``
+    , repeat body
+MetaDataX `it's`, x { string rootA ``
+    // a // b
+    , repeat options1 f32a , }//
+, Pad
+, // `tick` ""quote"" 'q'
+} , @calculatedFrom( ""1""
+    // packet A { u8 x, }
+    )@lengthOf(T ) char[
+7 ]	pack	`{ , }`	, } MetaData u {
+} /// triple")).
+Eval vm_compute in ("<<<M1775>>>" ++ check (runes_of_ascii "
 root  packet	// " ++ [27880; 37322]%N ++ runes_of_ascii "
 
 crc
@@ -328,289 +340,269 @@ Party
 
     ,} ,
 }")).
-Eval vm_compute in ("<<<M1350>>>" ++ check (runes_of_ascii "options {
-    StringPrefixLenType = u64;
-    ArrayPrefixLenType = u32;
-    FixedStringPadFromLeft = false;
+Eval vm_compute in ("<<<M1931>>>" ++ check (runes_of_ascii "options {
+    FixedStringPadFromLeft = true;
+    FixedStringPadChar = '0';
 }
-packet Party {
-    zchar[7] OrderId,
-    InTail6 {
-        repeat char[1] msgKind,
-        char[3] Tail,
-        char[3] Flags,
-        i16 tag7,
+
+packet Leg {
+    repeat InSym93 {
+        zchar[3] Acct,
+        string Side2,
+        i32 Flags,
+        f32 Note,
+        i32 msgKind,
     },
-    @rightPad('0') char[12] clOrdID,
+    f64 Note,
+    uint16 Px,
 }
+
 packet Quote {
-    @leftPad('0') char[11] price,
-    repeat InCount7 {
-        i32 x,
-        Party,
-        u8 Ref,
-        u8 tag7,
+    zchar[2] OrderId,
+}
+
+packet Ack {
+    repeat string lastPx,
+    zchar[4] price,
+    uint32 OrderId,
+    Quote,
+    int8 Acct,
+}
+
+packet Fill {
+    repeat Leg,
+    @rightPad('0')
+    char[11] Note,
+    f64 Px,
+    @rightPad('\x00')
+    char[5] Flags,
+    zchar[9] x,
+    string msgKind,
+}
+
+root packet Order {
+    Leg,
+    repeat Ack,
+    @rightPad('\x00')
+    char[3] Side2,
+    repeat char[1] seqNo,
+    u16 clOrdID,
+    match clOrdID as Body {
+        198 : Leg,
+        23 : Quote,
+        13 : Ack,
+        159 : Fill,
     },
-    char[] seqNo,
-    Party,
-}
-packet Logon {
-    @rightPad('\x00') char[5] Note,
-    i16 sym,
-    InPrice72 {
-        char[9] Ref,
-        zchar[1] venue,
-    },
-    char[] clOrdID,
-}
-root packet Reject {
-    repeat Logon,
-    @leftPad(' ') char[4] seqNo,
-    zchar[5] Acct,
-    u32 x,
-    u16 f1 @lengthOf(Body),
-    match x as Body {
-        [169, 74] : Quote,
-        45 : Party,
-        7 : Logon,
-    },
-}
-")).
-Eval vm_compute in ("<<<M1483>>>" ++ check (runes_of_ascii "packet 	 // packet A { u8 x, }
-  tag	{
-
-@calculatedFrom(	""x y""  )lengthOf{options1`
-`, 
-}	,
-
-    @tag( 
-7
-
-    )
-    int  { 
-    //x
-
-// " ++ [27880; 37322]%N ++ runes_of_ascii "
-  char[  007 
-] // `tick` ""quote"" 'q'
-      calculatedFrom
-@lengthOf(
-metadata 
-) ,
-
-tag
-@lengthOf(falsey) , f32 
-// " ++ [128512]%N ++ runes_of_ascii " emoji
-    calculatedFrom 
-	// `tick` ""quote"" 'q'
-
-	//
-
-	`{ , }`
-    ,  i8i8 {  string i64_	@lengthOf(
-asx  )
-
-`it's`	, 
-u 
-@calculatedFrom(
-
-""\n""
-)
-, }
-
-    ,
-} 
-,
-@calculatedFrom(	""abc""  //
-)
-@leftPad( 
-' '
-	)  uint64  calculatedFrom	, 	 // " ++ [27880; 37322]%N ++ runes_of_ascii "
-
-	}
-packet
-o  { Header,
-@lengthOf(
-
-i8i8 )
-
-float32
-
-Pad  // c
-  ,
-
-char[
-
-42]leftPad
-@calculatedFrom(
-	"""" // " ++ [128512]%N ++ runes_of_ascii " emoji
-    )	, 
-@tag(255
-
-)body u
-,
-    } 
-packet lengthOf
-
-{ 
-    // packet A { u8 x, }
-	// c
-  @tag(
-255 	 //x
-      )char[ 0123456789	]
-	o
-`
-`,  }
-")).
-Eval vm_compute in ("<<<M219>>>" ++ check (runes_of_ascii "
-packet
-falsey{ // `tick` ""quote"" 'q'
-repeat charz
-    /// triple
-    float // a // b
-`tab	here`
-    ,
-char[]stringy  , Logon
-    f32a,
-    char[] string_/// triple
-,
-int16
-_x
-`` ,
-    match/// triple
-crc as stringy { ""abc"" :Pad
-    [ ""\n"" , 10, 4294967296, 0123456789 , ""abc"" ,	""" ++ [28040; 24687]%N ++ runes_of_ascii """
-    ] :
-i8i8 , 10 :
-    //x
-    Header , 10:// c
-calculatedFrom
-    , 0123456789: charz
-10
-    :
-    repeatCount} ,
-    leftPad @lengthOf(
-u8x )  , @lengthOf(a1) repeat x body ,
-} MetaData
-string_
-{ float64  f32a	, zchar[
-255] T, u32 trueish, BodyLength roots
-`two words` , }
-// " ++ [128512]%N ++ runes_of_ascii " emoji
-//	t
-packet stringy{ zchar[
-    255
-    ]Foo ,
-}
-MetaData
-leftPad {
-    } //
-options { x //x
-=
-true
-    ;
-zchar = """" } //")).
-Eval vm_compute in ("<<<M23>>>" ++ check (runes_of_ascii "MetaData lengthOf
-{ }
-MetaData falsey { // " ++ [27880; 37322]%N ++ runes_of_ascii "
-falsey i64_
-`
-`	, zchar[ 255	] u `two words` ,	BodyLength int , matchKey	i8i8 `crlf
-line` ,uint8x	asx ,
-char[]options1 ,	}packet
-    asx  {	@lengthOf( o
-)@calculatedFrom(//
-""\n"" ) char[] lengthOf  `two words`// c
-,
-    BodyLength `" ++ [233]%N ++ runes_of_ascii "` ,repeat u8x len // " ++ [27880; 37322]%N ++ runes_of_ascii "
-`doc`
-, int
-@calculatedFrom(
-""a\\""
-    ) `line1
-line2`,@lengthOf( MetaDataX
-)
-Packet packetx
-    // `tick` ""quote"" 'q'
-    , a1 {
-    match Logon	as
-// " ++ [128512]%N ++ runes_of_ascii " emoji
-/// triple
-len {	4294967296
-:matchKey , [
-1  , 10 , 10 ,
-""{,}"" , """ ++ [233]%N ++ runes_of_ascii "t" ++ [233]%N ++ runes_of_ascii """ , 0123456789]: leftPad ,  3
-    :msg_type ,
-//	t
-//x
-1 : As
-,} ,
-    chars , }
-    ,}
-")).
-Eval vm_compute in ("<<<M348>>>" ++ check (runes_of_ascii "root // c
-packet asx { @rightPad
-    (
-' ' ) @lengthOf(  int)@tag( 0 ) u64 uint8x @calculatedFrom( ""packet"")
-    ,  uint32 i64_ ,
-    // c
-    repeat options1 o,match f32a as /// triple
-falsey// " ++ [27880; 37322]%N ++ runes_of_ascii "
-{ 42 : stringy 10 :
-As, """" :
-    Packet ,
-} ,@calculatedFrom(""it's""
-) // " ++ [128512]%N ++ runes_of_ascii " emoji
-f64	a1 ,
-    @lengthOf(
-    tag )
-    match roots as MetaDataX
-{
-""" ++ [128512]%N ++ runes_of_ascii """:  f32a
-    , ""\n"" :
-    As [ 255 ]: A ,  }, a1 @calculatedFrom(	""abc"" )
-`` , @rightPad(
-)
-    @rightPad (
-    '\x00'
-)@calculatedFrom(
-""CRC32"" )body As , }  root packet packetx
-{
-//x
-//
-repeat lengthOf Logon `" ++ [28040; 24687; 31867; 22411]%N ++ runes_of_ascii "` , //	t
+    u32 venue @calculatedFrom(""CR\
+        C32""),
 }")).
-Eval vm_compute in ("<<<M40>>>" ++ check (runes_of_ascii "packet stringy
-//	t
-//
-{ repeat T// trailing space 
-{ u64 lengthOf
-`tab	here`  ,
-repeat
-_x { match calculatedFrom as Header { [""" ++ [233]%N ++ runes_of_ascii "t" ++ [233]%N ++ runes_of_ascii """
-    ] : _x  ,// @lengthOf(
-[""packet"" ] :
-MetaDataX , 255 : u128,42 :
-A
-""// no comment"" : body
-    , }
-, repeat crc Foo, charz
-    ,
-}	,zchar[ 1
-    ]i8i8@calculatedFrom( ""x y"" ),  uint8x
-    // " ++ [27880; 37322]%N ++ runes_of_ascii "
-    Pad
-`line1
-line2` , } ,
-@lengthOf( u )
-char[ //x
-4294967296 ]crc, @tag(  007 //x
-)repeatCount ,
-repeat
-    //x
-    char[] Header, @rightPad ( )char[] string_ `a\` ,
+Eval vm_compute in ("<<<M330>>>" ++ check (runes_of_ascii "root packet
+As {
+} MetaData Pad { string
+    metadata  `// not a comment` ,
     }
+packet metadata
+    { string	charz
+`a\` , @leftPad ( ' ' )pack@lengthOf(x_y_z ), @calculatedFrom( ""packet"")
+match crc
+    as chars { [ ""packet"" ,7 ]
+    :  repeatCount }
+, Pad @lengthOf( matchKey
+    ),
+@calculatedFrom( ""\n""
+    )int64
+    Z9_ @lengthOf(
+    // a // b
+    _x ),
+@lengthOf(repeatCount// trailing space 
+) repeat float
+{ u128 @lengthOf( zchar) , u8 crc
+, } ,
+    int64 pack, u128
+    `it's` , repeat
+// a // b
+// `tick` ""quote"" 'q'
+i32 T , //	t
+@tag(00 ) rootA  @lengthOf(
+float
+    )
+,
+} MetaData Header // @lengthOf(
+{u32 u,	string A `crlf
+line` ,
+u16
+    roots `a\` ,int16 chars , }
+packet repeatCount { repeat char[
+// trailing space 
+//x
+65535]
+    x `line1
+line2`
+, }")).
+Eval vm_compute in ("<<<M52>>>" ++ check (runes_of_ascii "  MetaData
+    // " ++ [27880; 37322]%N ++ runes_of_ascii "
+    packetx { zchar[ 7 ] leftPad
+`// not a comment` ,	}	packet i64_{@calculatedFrom(
+"""" )
+// trailing space 
+// c
+@lengthOf(
+x_y_z ) @tag( 00
+)
+repeatCount
+    // packet A { u8 x, }
+    @calculatedFrom(""1"" ), } packet falsey { int16
+_x
+@calculatedFrom(	""it's"") , } // @lengthOf(
+root
+packet matchKey
+    {repeat u32  Pad  `" ++ [233]%N ++ runes_of_ascii "`, zchar[ 7 ]
+    leftPad
+,match chars as lengthOf
+{ 1 :
+o
+    42 : chars
+// trailing space 
+// c
+,
+}//x
+, repeat
+zchar[
+    255]
+a1, matchKey //
+Packet
+    // `tick` ""quote"" 'q'
+    ,
+f32
+    tag
+    ,
+// @lengthOf(
+// trailing space 
+@calculatedFrom(  ""a\""b"" ) @leftPad( ' ' ) @lengthOf(
+T) stringy
+@lengthOf( o) ,packetx  i64_ ,}
+/// triple
 ")).
+Eval vm_compute in ("<<<M342>>>" ++ check (runes_of_ascii "root packet Z9_	{  repeat i8i8 int`// not a comment`
+,	uint8x
+    // c
+    , f64 i8i8  `tab	here` ,@tag(
+3 ) @tag( 3 ) @tag( /// triple
+10
+// trailing space 
+// trailing space 
+) repeat int{ MetaDataX // " ++ [27880; 37322]%N ++ runes_of_ascii "
+,} , @tag( 10
+    ) int8
+    pack@lengthOf(x
+    ), Logon ,	@tag( 00
+) repeat
+rootA
+uint8x ,  @calculatedFrom( ""\n"" // a // b
+) // `tick` ""quote"" 'q'
+@lengthOf( len )
+// @lengthOf(
+// `tick` ""quote"" 'q'
+BodyLength  { matchKey f32a
+//x
+// `tick` ""quote"" 'q'
+`say ""hi""` ,} ,  char[] leftPad `{ , }` ,
+@lengthOf( float )match repeatCount as	o { 255 : matchKey ,
+    // " ++ [128512]%N ++ runes_of_ascii " emoji
+    00:	A 007 :
+    options1 } , }
+")).
+Eval vm_compute in ("<<<M1825>>>" ++ check (runes_of_ascii "options {
+    Header = u32;
+}
+
+options {
+    i8i8 = f64;
+    body = zchar[00];
+}
+
+//
+MetaData BodyLength {
+    // trailing space 
+}// " ++ [27880; 37322]%N ++ runes_of_ascii "
+
+options {
+    Logon = u64
+    As = true
+    i64_ = '\x00';
+}
+
+root packet asx {
+    @tag(4294967296)
+    roots @lengthOf(A),
+    repeat uint8 u128,
+    int32 i64_,
+    u8 u ``,
+    @lengthOf(len)
+    uint64 matchKey,
+    match rootA as stringy {
+        1 : string_,
+        7 : charz,
+        255 : u128,
+        [0, 0123456789, 1, 007] : len,
+        10 : trueish,
+    },
+    @rightPad()
+    char[7] int @lengthOf(x) `two words`,
+}")).
+Eval vm_compute in ("<<<M1441>>>" ++ check (runes_of_ascii "
+MetaData  BodyLength	{
+
+zchar[65535	]  As
+`crlf
+line` ,  u16 
+charz
+
+    , 
+body
+len
+,zchar
+	msg_type,
+    uint64 metadata ,
+    }root
+
+packet	//
+	matchKey
+{
+	repeat
+
+    i8i8  `{ , }`	,
+}
+
+    MetaData 
+a1
+	{i8i8 
+Pad `it's` ,  
+  // trailing space 
+    // `tick` ""quote"" 'q'
+
+int64
+
+// " ++ [128512]%N ++ runes_of_ascii " emoji
+roots
+    `doc`,
+
+    Foo BodyLength `u8 x,` , }packet
+    _x
+	{ lengthOf
+	{  pack `" ++ [28040; 24687; 31867; 22411]%N ++ runes_of_ascii "`
+    , string_ 	 // @lengthOf(
+    	,
+    repeat //
+	rootA
+    len
+
+    ,zchar[
+
+1 
+] u8x	,
+	}	,
+	} ")).
 Eval vm_compute in ("<<<M307>>>" ++ check (runes_of_ascii "  packet	charz	{
 // " ++ [27880; 37322]%N ++ runes_of_ascii "
 /// triple
@@ -644,7 +636,7 @@ repeat Pad float
     }	options {
     roots= true;  }
 ")).
-Eval vm_compute in ("<<<M1654>>>" ++ check (runes_of_ascii "packet Frame {
+Eval vm_compute in ("<<<M1329>>>" ++ check (runes_of_ascii "packet Frame {
     u8 HK,
     u8 BK,
     u8 TK,
@@ -660,349 +652,210 @@ Eval vm_compute in ("<<<M1654>>>" ++ check (runes_of_ascii "packet Frame {
         1 : TrlA,
     },
 }
-
 packet HdrA {
     u8 a,
 }
-
 packet HdrB {
     u16 b,
 }
-
 packet BodyA {
     u32 c,
 }
-
 packet BodyB {
     u64 d,
 }
-
 packet TrlA {
     u8 e,
 }
-
 root packet Msg {
     Frame,
     u8 x,
-}")).
-Eval vm_compute in ("<<<M1686>>>" ++ check (runes_of_ascii "packet
-
-    a1 {
-
-    @leftPad
-    (
-) float 
-@lengthOf( 
-uint8x )
-,
-
-}packet	Logon
-	{ 
-char Logon
-@calculatedFrom(	""a\\""
-)
-    , T	stringy
-,  
-      //
-		// c
-  repeat uint8 stringy
-	`two words`	,
-} MetaData
-
-    charz  {
-
-u tag `
-` 
-,a1
-falsey  ,  //x
-Z9_
-    matchKey, f64 lengthOf `a\`// @lengthOf(
-	,  f32a roots
-
-``
-,
-
-float64  x_y_z // @lengthOf(
-,
-	}")).
-Eval vm_compute in ("<<<M1567>>>" ++ check (runes_of_ascii "
-packet tag
-
-    {
-
 }
-packet	falsey  {string
-    charz
-	@lengthOf(
-
-    zchar)
-
+")).
+Eval vm_compute in ("<<<M372>>>" ++ check (runes_of_ascii "// @lengthOf(
+MetaData leftPad { string	options1`say ""hi""` ,
+    //x
+    int16 metadata`" ++ [233]%N ++ runes_of_ascii "`,f32 i64_
+//	t
+// c
+, }  packet
+trueish { // c
+MetaDataX roots ,_x
+    a1 , match
+packetx as charz { 0
+: // c
+f32a ,
+} //
+, repeat body Logon , }	options { repeatCount=
+    int8
+charz // `tick` ""quote"" 'q'
+=	char[];  msg_type =""it's""	u
+=
+    007 Z9_
+    = uint32
+    //
+    }")).
+Eval vm_compute in ("<<<M194>>>" ++ check (runes_of_ascii "// `tick` ""quote"" 'q'
+options
+    //	t
+    { }  packet lengthOf // `tick` ""quote"" 'q'
+{  } packet
+// a // b
+// " ++ [27880; 37322]%N ++ runes_of_ascii "
+Foo {
+@tag(
+1
+) string
+uint8x ,_x { chars  , string uint8x , i64 _x //
+`it's`
+    , repeat uint8 As,	}
+, float32
+f32a , @leftPad( '\x00')
+    @calculatedFrom( """ ++ [28040; 24687]%N ++ runes_of_ascii """
+) // trailing space 
+uint8 Logon
 ,
-string // trailing space 
-    u@calculatedFrom(""" ++ [233]%N ++ runes_of_ascii "t" ++ [233]%N ++ runes_of_ascii """ )
-
-`// not a comment` 
-,@leftPad
-    (  '0') 
-char[]
-leftPad 
-@calculatedFrom( ""a	b""
-    )
-`// not a comment`, @calculatedFrom(	""`tick`""
-)  @lengthOf( roots )repeat
-MetaDataX
-    ,}
-")).
-Eval vm_compute in ("<<<M370>>>" ++ check (runes_of_ascii "  root packet trueish // " ++ [128512]%N ++ runes_of_ascii " emoji
-{ char[] MetaDataX , @leftPad (
-    // trailing space 
-    '0' )match float as
-//x
-// trailing space 
-crc { 0123456789 :// " ++ [27880; 37322]%N ++ runes_of_ascii "
-chars	, ""{,}"" : i8i8,
+    }")).
+Eval vm_compute in ("<<<M1308>>>" ++ check (runes_of_ascii "packet A {
+    u8 a,
 }
-, f32a
-    // " ++ [128512]%N ++ runes_of_ascii " emoji
-    f32a `tab	here` ,// " ++ [128512]%N ++ runes_of_ascii " emoji
-@lengthOf( Foo )
-    Packet@calculatedFrom( """ ++ [28040; 24687]%N ++ runes_of_ascii """ ) `it's` , }
+packet B {
+    u16 b,
+}
+packet C {
+    u32 c,
+}
+root packet M {
+    u16 Kc, u16 Kb, u16 Ka,
+    match Kc as X {
+        9 : A,
+        10 : B,
+    },
+    match Kb as Y {
+        2 : C,
+        1 : A,
+    },
+    match Ka as Z {
+        1 : B,
+    },
+    A, B, C,
+}
 ")).
-Eval vm_compute in ("<<<M1250>>>" ++ check (runes_of_ascii "// top
-packet
+Eval vm_compute in ("<<<M1274>>>" ++ check (runes_of_ascii "// top
+options
     // c0
-Inner
-    // c1
-{ // c2a
-  // c2b
-u8
-    // c3
-a // c4a
-  // c4b
-, }
+{ // c1a
+  // c1b
+FixedStringPadFromLeft
+    // c2
+= // c3
+true
+    // c4
+; // c5a
+  // c5b
+}
     // c6
 root // c7
-packet // c8
-P // c9a
-  // c9b
-{
+packet P {
     // c10
-Inner // c11a
+char[ // c11a
   // c11b
-ref_obj
-    // c12
-, // c13a
-  // c13b
-u8 x ,
-    // c16
-} // c17a
-  // c17b
+4 // c12a
+  // c12b
+] z // c14
+,
+    // c15
+} // c16a
+  // c16b
 ")).
-Eval vm_compute in ("<<<M190>>>" ++ check (runes_of_ascii "packet // @lengthOf(
-f32a
-    {	@rightPad (
-    '0' ) @lengthOf( BodyLength ) uint8 Foo ``,
-    //x
-    char[]
-    options1 @calculatedFrom(
-    ""it's"" ) ,@tag(255/// triple
-) uint64
-    Header @calculatedFrom( ""abc""
-) `
-`
-,}
+Eval vm_compute in ("<<<M1505>>>" ++ check (runes_of_ascii "// top
+options {
+    f32a = 0
+}// c5
 
-")).
-Eval vm_compute in ("<<<M207>>>" ++ check (runes_of_ascii "
-MetaData chars { } options
-{ As
-= true ;As // `tick` ""quote"" 'q'
-= false; stringy
-= true} packet repeatCount  {string
-    float@lengthOf(
-    matchKey )
-// packet A { u8 x, }
-//x
-`say ""hi""` ,
+packet trueish {
+    // c8
 }
-")).
-Eval vm_compute in ("<<<M62>>>" ++ check (runes_of_ascii "packet
-crc { @leftPad //	t
-( ) repeat
-charz float
-    ,} root packet
-options1 {
-@tag( 65535/// triple
-)packetx
-{ u128 , f32 /// triple
-a1 ,
-    } , }
-// trailing space 
-")).
-Eval vm_compute in ("<<<M1440>>>" ++ check (runes_of_ascii "
 
-  packet 
-A {
+// c9
+MetaData _x {
+    char[0123456789] zchar,// c17a
+    // c17b
+    string crc,
+    // c20
+    char[1] options1,
+    uint8 repeatCount,// c28
+}// c29")).
+Eval vm_compute in ("<<<M1634>>>" ++ check (runes_of_ascii "options {
+    FixedStringPadChar = '0';
+}
 
-    match
+packet Q {
+    zchar[4] z,
+    @rightPad('\x00')
+    char[3] n,
+    char[5] d,
+}
 
-    k
-    as n
-
+root packet R {
+    Q,
+    zchar[8] top,
+    repeat zchar[2] zs,
+}")).
+Eval vm_compute in ("<<<M44>>>" ++ check (runes_of_ascii "
+packet repeatCount
     {
-	[  ""a""
-
-,
-22 ,
-
-""c c""
-
-,
-    4, ""e""
-
-, 66 
-,
-    ""g""
-
-,
-    8  ,""i""
-
-    ]
-: B
-
-    2:
-
-C
-} 
-, }
+trueish , } packet uint8x
+{/// triple
+match u8x as calculatedFrom
+    { [ 4294967296 ]: len ,
+[ """ ++ [128512]%N ++ runes_of_ascii """ ,	""" ++ [233]%N ++ runes_of_ascii "t" ++ [233]%N ++ runes_of_ascii """ , 255 , //
+1
+] : falsey , } , }
 ")).
-Eval vm_compute in ("<<<M1748>>>" ++ check (runes_of_ascii "
-MetaData
-
-    leftPad
-{chars  MetaDataX 
-,
-	}
-    packet  // c
-
-repeatCount
+Eval vm_compute in ("<<<M187>>>" ++ check (runes_of_ascii "
+options// " ++ [27880; 37322]%N ++ runes_of_ascii "
 {
-
-    char[ 255]  uint8x
-	`" ++ [233]%N ++ runes_of_ascii "` , } MetaData
-
-pack
-
-    { 
-As	Foo , }
+f32a= ""a\""b""//x
+; Z9_ = // " ++ [27880; 37322]%N ++ runes_of_ascii "
+""`tick`""	Logon
+    // " ++ [27880; 37322]%N ++ runes_of_ascii "
+    =""CRC32""u128= f64 ;rootA	=
+false ;} //	t
+packet lengthOf {
+} MetaData len { }
 ")).
-Eval vm_compute in ("<<<M496>>>" ++ check (runes_of_ascii "packet uint8x
+Eval vm_compute in ("<<<M466>>>" ++ check (runes_of_ascii "packet uint8x
 { match pack
     as msg_type	{
     0123456789 :	float
 }
 ,
 } packet //	t
-a1
-    { } options {packetx
-    = = '\x00'	; u128= ""a	b""  ; }
-")).
-Eval vm_compute in ("<<<M417>>>" ++ check (runes_of_ascii "packet uint8x
-{ match pack
-    msg_type as	{
-    0123456789 :	float
-}
-,
-} packet //	t
-a1
+a1 a1
     { } options {packetx
     = '\x00'	; u128= ""a	b""  ; }
 ")).
-Eval vm_compute in ("<<<M400>>>" ++ check (runes_of_ascii "packet uint8x
- match pack
-    as msg_type	{
-    0123456789 :	float
-}
-,
-} packet //	t
-a1
-    { } options {packetx
-    = '\x00'	; u128= ""a	b""  ; }
-")).
-Eval vm_compute in ("<<<M1781>>>" ++ check (runes_of_ascii "
-
-  packet 
-A {  match
-k
-	as n{
-	[ ""a""
-
-, 22
-
-,
-""c c""  ,
-	4
-,
-""e""  ,
-	66
-,
-
-""g""	,
-8
-	,
-	""i""
-	,
-10,
-
-    ""k""
-	,
-12
-]
-    :B
-	, 2
-
-: C },
-
-}
-")).
-Eval vm_compute in ("<<<M660>>>" ++ check (runes_of_ascii "/""/ @lengthOf(
+Eval vm_compute in ("<<<M701>>>" ++ check (runes_of_ascii "// @lengthOf(
 packet i8i8 { u128 o , }
 options { MetaDataX = true;
-    BodyLength =""packet"" x_y_z= 007
+    BodyLength =""packet"" ""packet"" x_y_z= 007
 crc //x
 = ""abc"" ;
     msg_type =
 i16 }")).
-Eval vm_compute in ("<<<M692>>>" ++ check (runes_of_ascii "// @lengthOf(
-packet i8i8 { u128 o , }
-options { MetaDataX = true;
-    BodyLength =""packet"" x_y_z= 007
-u8 //x
-= ""abc"" ;
-    msg_type =
-i16 }")).
-Eval vm_compute in ("<<<M1900>>>" ++ check (runes_of_ascii "packet A {
-    Inner {
-        u8 x `
-                `,
-        Deep {
-            u8 y `
-                        `,
-        },
-    },
-}")).
-Eval vm_compute in ("<<<M1635>>>" ++ check (runes_of_ascii "root packet u8x {
+Eval vm_compute in ("<<<M462>>>" ++ check (runes_of_ascii "packet uint8x
+{ match pack
+    as msg_type	{
+    0123456789 :	float
 }
-
-options {
-    o = zchar[1]
-    Packet = u32;
-    uint8x = ""a\\"";
-    /// triple
-    u8x = 0;
-    crc = ""\n"";
-}")).
-Eval vm_compute in ("<<<M504>>>" ++ check (runes_of_ascii "packet uint8x
+,
+} a1 //	t
+packet
+    { } options {packetx
+    = '\x00'	; u128= ""a	b""  ; }
+")).
+Eval vm_compute in ("<<<M505>>>" ++ check (runes_of_ascii "packet uint8x
 { match pack
     as msg_type	{
     0123456789 :	float
@@ -1011,179 +864,251 @@ Eval vm_compute in ("<<<M504>>>" ++ check (runes_of_ascii "packet uint8x
 } packet //	t
 a1
     { } options {packetx
-    =")).
-Eval vm_compute in ("<<<M1155>>>" ++ check (runes_of_ascii "MetaData leftPad { chars MetaDataX , } // c
-packet repeatCount { char[ 255 ] uint8x `" ++ [233]%N ++ runes_of_ascii "` , } MetaData pack { As Foo , }")).
-Eval vm_compute in ("<<<M1187>>>" ++ check (runes_of_ascii "MetaData leftPad { chars MetaDataX , } packet repeatCount { char[ 255 ] uint8x `" ++ [233]%N ++ runes_of_ascii "` , } MetaData pack { As Foo , // c
+    = '\x00'	 u128= ""a	b""  ; }
+")).
+Eval vm_compute in ("<<<M1667>>>" ++ check (runes_of_ascii "options {
+    body = """ ++ [28040; 24687]%N ++ runes_of_ascii """
+}
+
+packet matchKey {
+    string_ @lengthOf(f32a),
+    int32 int @lengthOf(u128),
+    tag x_y_z,
+}
+
+packet BodyLength {
 }")).
-Eval vm_compute in ("<<<M239>>>" ++ check (runes_of_ascii "options { lengthOf =3
-trueish
+Eval vm_compute in ("<<<M120>>>" ++ check (runes_of_ascii "packet float {@calculatedFrom(
+// " ++ [128512]%N ++ runes_of_ascii " emoji
 // packet A { u8 x, }
-// trailing space 
-=
-    true
-; calculatedFrom =
-007;} 	 ")).
-Eval vm_compute in ("<<<M1279>>>" ++ check (runes_of_ascii "options {
-    LittleEndian = true;
+""CRC32"" )Foo `" ++ [28040; 24687; 31867; 22411]%N ++ runes_of_ascii "`	,@calculatedFrom( ""a\\"" )
+    zchar[ 0 ]	msg_type `doc` , }")).
+Eval vm_compute in ("<<<M1664>>>" ++ check (runes_of_ascii "
+
+  packet A
+	{
+	match
+
+    k
+    as 
+n  { [""a""
+,
+    22
+,	""c c"" , 4
+	, 
+""e""
+,66  ,
+    ""g""
+,	8
+
+,
+
+    ""i""
+	,10, ""k""
+]:B	2 : C	}
+
+,	}")).
+Eval vm_compute in ("<<<M1436>>>" ++ check (runes_of_ascii "MetaData 
+leftPad {chars 
+	// c
+MetaDataX  ,
+
+    }packet	repeatCount {char[ 255 ]
+
+uint8x
+    `" ++ [233]%N ++ runes_of_ascii "`  ,}MetaData
+pack { As  Foo
+
+,}
+")).
+Eval vm_compute in ("<<<M1648>>>" ++ check (runes_of_ascii "packet A {
+    match k as n {
+        [
+            1, 22, ""c c"", 4, 5,
+            ""f"", 7
+        ] : B,
+        2 : C,
+    },
+}")).
+Eval vm_compute in ("<<<M1258>>>" ++ check (runes_of_ascii "packet B {
+    u8 a,
 }
 root packet P {
-    u16 a,
-    u32 Sum @calculatedFrom(""CR\
-C32""),
+    u8 K,
+    u8 L @lengthOf(Body),
+    match K as Body {
+        1 : B,
+    },
 }
 ")).
-Eval vm_compute in ("<<<M1450>>>" ++ check (runes_of_ascii "
-
-  packet
-A { 
-match k
-
-as
-n{
-	[ ""a"", ""bb"" ,
-	""c c""
-
-,
-""d""
-	, ""e""
-
-    ,
-	""f"" 
-] :B	2	:  C
-
+Eval vm_compute in ("<<<M1161>>>" ++ check (runes_of_ascii "MetaData leftPad { chars MetaDataX , } packet repeatCount { // c
+char[ 255 ] uint8x `" ++ [233]%N ++ runes_of_ascii "` , } MetaData pack { As Foo , }")).
+Eval vm_compute in ("<<<M39>>>" ++ check (runes_of_ascii "options { o =
+    '\x00' // " ++ [128512]%N ++ runes_of_ascii " emoji
+; T = u32 ; msg_type
+// `tick` ""quote"" 'q'
+//
+= ""a	b""  a1 = '\x00'
 }
+// " ++ [128512]%N ++ runes_of_ascii " emoji
+")).
+Eval vm_compute in ("<<<M1244>>>" ++ check (runes_of_ascii "// top
+root // c0
+packet // c1
+P { // c3
+repeat // c4
+char cs
+    // c6
+, u8 x // c9a
+  // c9b
 , }
+    // c11
 ")).
-Eval vm_compute in ("<<<M258>>>" ++ check (runes_of_ascii "packet
-    metadata{ u32 // `tick` ""quote"" 'q'
-Packet `say ""hi""`
-,
-    // trailing space 
-    }")).
-Eval vm_compute in ("<<<M891>>>" ++ check (runes_of_ascii "packet A {
+Eval vm_compute in ("<<<M897>>>" ++ check (runes_of_ascii "packet A {
   match k as n {
-    [1, 22, 007, 4, 5, 66, 7, 8, 9, 10, 11] : B,
+    [""a"", 22, ""c c"", 4, ""e"", 66, ""g"", 8, ""i"", 10, ""k""] : B,
     2 : C
   },
 }")).
-Eval vm_compute in ("<<<M631>>>" ++ check (runes_of_ascii "
+Eval vm_compute in ("<<<M956>>>" ++ check (runes_of_ascii "packet A {
+    Inner {
+        u8 x `
+x`,
+        Deep {
+            u8 y `
+x`,
+        },
+    },
+}")).
+Eval vm_compute in ("<<<M1>>>" ++ check (runes_of_ascii "MetaData  crc {  Pad T
+, zchar[
+    0123456789
+    ] a1 ,int8 trueish// c
+, } packet float{ }
+")).
+Eval vm_compute in ("<<<M869>>>" ++ check (runes_of_ascii "packet A {
+  match k as n {
+    [1, ""bb"", 007, ""d"", 5, ""f"", 7, ""h"", 9] : B,
+    2 : C
+  },
+}")).
+Eval vm_compute in ("<<<M858>>>" ++ check (runes_of_ascii "packet A {
+  match k as n {
+    [""a"", 22, ""c c"", 4, ""e"", 66, ""g"", 8] : B,
+    2 : C
+  },
+}")).
+Eval vm_compute in ("<<<M612>>>" ++ check (runes_of_ascii "
 packet
     asx {match u128 as lengthOf
 {
 //	t
 // `tick` ""quote"" 'q'
-255 %: x ,
-    } ,	}")).
-Eval vm_compute in ("<<<M878>>>" ++ check (runes_of_ascii "packet A {
-  match k as n {
-    [1, 22, 007, 4, 5, 66, 7, 8, 9, 10] : B,
-    2 : C
-  },
-}")).
-Eval vm_compute in ("<<<M1512>>>" ++ check (runes_of_ascii "packet A {
-    match k as n {
-        [""a"", 22, ""c c"", 4] : B,
-        2 : C,
-    },
-}")).
-Eval vm_compute in ("<<<M815>>>" ++ check (runes_of_ascii "packet A {
-  match k as n {
-    [""a"", ""bb"", ""c c"", ""d"", ""e""] : B,
-    2 : C
-  },
-}")).
-Eval vm_compute in ("<<<M1432>>>" ++ check (runes_of_ascii "packet	A { 	 // a
-	@tag(
-
-1
-	)
-u8  x  ,	// b
-
-// c
-	  @tag(
-
-2 
-) u8	y  ,	}
-")).
-Eval vm_compute in ("<<<M1249>>>" ++ check (runes_of_ascii "packet Inner {
-    u8 a,
+255 : x ,
+     ,	}")).
+Eval vm_compute in ("<<<M1246>>>" ++ check (runes_of_ascii "options {
+    LittleEndian = true;
 }
 root packet P {
-    Inner ref_obj,
+    repeat char cs,
     u8 x,
 }
 ")).
-Eval vm_compute in ("<<<M108>>>" ++ check (runes_of_ascii "packet int {}
-options {leftPad ='0' ;metadata= char[] Foo=
-'0' ; }
-")).
-Eval vm_compute in ("<<<M653>>>" ++ check (runes_of_ascii "// @lengthOf(
-packet i8i8 { u128 o , }
-options { MetaDataX = true")).
-Eval vm_compute in ("<<<M439>>>" ++ check (runes_of_ascii "packet uint8x
-{ match pack
-    as msg_type	{
-    0123456789")).
-Eval vm_compute in ("<<<M1552>>>" ++ check (runes_of_ascii "root packet A {
-    u8 x `a
-            b
-          c`,
+Eval vm_compute in ("<<<M816>>>" ++ check (runes_of_ascii "packet A {
+  match k as n {
+    [""a"", ""bb"", ""c c"", ""d"", ""e""] : B
+    2 : C
+  },
 }")).
-Eval vm_compute in ("<<<M1202>>>" ++ check (runes_of_ascii "packet body
-// c
-{ i32 f32a `{ , }` , } options { }")).
-Eval vm_compute in ("<<<M251>>>" ++ check (runes_of_ascii "
-root packet
-chars
-{
-    i16 leftPad
-    , }
-")).
-Eval vm_compute in ("<<<M1822>>>" ++ check (runes_of_ascii "
-
-  root  packet A
-{
-u8
-
-    x `a
-b`
-
-,} ")).
-Eval vm_compute in ("<<<M1717>>>" ++ check (runes_of_ascii "
-MetaData
-repeatCount  {	} 
-
-    //	t
-")).
-Eval vm_compute in ("<<<M1395>>>" ++ check (runes_of_ascii "packet A {
-    u8 x `
-        `,
+Eval vm_compute in ("<<<M269>>>" ++ check (runes_of_ascii "options
+{ Z9_ ='\x00'  } packet trueish
+{ // " ++ [128512]%N ++ runes_of_ascii " emoji
+u16 calculatedFrom
+, }")).
+Eval vm_compute in ("<<<M822>>>" ++ check (runes_of_ascii "packet A {
+  match k as n {
+    [1, 22, ""c c"", 4, 5] : B
+    2 : C
+  },
 }")).
-Eval vm_compute in ("<<<M1784>>>" ++ check (runes_of_ascii "options {
-    Packet = char[]
+Eval vm_compute in ("<<<M800>>>" ++ check (runes_of_ascii "packet A {
+  match k as n {
+    [1, 22, 007, 4] : B,
+    2 : C
+  },
 }")).
-Eval vm_compute in ("<<<M1754>>>" ++ check (runes_of_ascii "
-
-  packet A{ }
-        // c" ++ [160]%N)).
-Eval vm_compute in ("<<<M1571>>>" ++ check (runes_of_ascii "  // c
+Eval vm_compute in ("<<<M781>>>" ++ check (runes_of_ascii "packet A {
+  match k as n {
+    [""a"", ""bb""] : B
+    2 : C
+  },
+}")).
+Eval vm_compute in ("<<<M1222>>>" ++ check (runes_of_ascii "// top
 packet
+    // c0
+x
+    // c1
+{
+    // c2
+}
+    // c3
+")).
+Eval vm_compute in ("<<<M1406>>>" ++ check (runes_of_ascii "packet body {
+    i32 f32a `{ , }`,
+}
+
+// c
+options {
+}")).
+Eval vm_compute in ("<<<M1206>>>" ++ check (runes_of_ascii "packet body { i32
+// c
+f32a `{ , }` , } options { }")).
+Eval vm_compute in ("<<<M1073>>>" ++ check (runes_of_ascii "packet A {} packet B {} MetaData M {} options {}")).
+Eval vm_compute in ("<<<M1816>>>" ++ check (runes_of_ascii "root packet A {
+    u8 x `tab
+        	x`,
+}")).
+Eval vm_compute in ("<<<M1900>>>" ++ check (runes_of_ascii "
+packet
+A{
+	u8
+	x
+	`d" ++ [8192]%N ++ runes_of_ascii "`, 	 // c" ++ [8192]%N ++ runes_of_ascii "
+
+  }
+")).
+Eval vm_compute in ("<<<M1090>>>" ++ check (runes_of_ascii "packet A { @tag( // a
+ 1 ) u8 x, }")).
+Eval vm_compute in ("<<<M1914>>>" ++ check (runes_of_ascii "packet A 
+{  u8
 
 x
-{
-} ")).
-Eval vm_compute in ("<<<M1109>>>" ++ check (runes_of_ascii "MetaData tag { // c
-}")).
-Eval vm_compute in ("<<<M1132>>>" ++ check (runes_of_ascii "MetaData u // c
-{ }")).
-Eval vm_compute in ("<<<M1026>>>" ++ check (runes_of_ascii "packet A {
-}
-// c" ++ [8287]%N)).
-Eval vm_compute in ("<<<M1014>>>" ++ check (runes_of_ascii "packet A {
-}// c" ++ [8233]%N)).
-Eval vm_compute in ("<<<M1072>>>" ++ check (runes_of_ascii "
 
-  packet A {}")).
-Eval vm_compute in ("<<<M1060>>>" ++ check (runes_of_ascii "// c x")).
-Eval vm_compute in ("<<<M769>>>" ++ check ([12]%N ++ runes_of_ascii "7" ++ [30]%N)).
+`a
+
+b` ,}
+")).
+Eval vm_compute in ("<<<M1945>>>" ++ check (runes_of_ascii "MetaData repeatCount {
+}
+//	t")).
+Eval vm_compute in ("<<<M1595>>>" ++ check (runes_of_ascii "  packet
+
+pack
+    {
+}
+
+")).
+Eval vm_compute in ("<<<M1395>>>" ++ check (runes_of_ascii "root packet chars {
+}")).
+Eval vm_compute in ("<<<M1839>>>" ++ check (runes_of_ascii "
+packet falsey {}
+")).
+Eval vm_compute in ("<<<M1037>>>" ++ check (runes_of_ascii "// c" ++ [12]%N ++ runes_of_ascii "
+packet A {
+}")).
+Eval vm_compute in ("<<<M1034>>>" ++ check (runes_of_ascii "packet A {
+}// c" ++ [12]%N)).
+Eval vm_compute in ("<<<M1738>>>" ++ check (runes_of_ascii "  options {	}
+")).
+Eval vm_compute in ("<<<M1040>>>" ++ check (runes_of_ascii "// c 	")).
+Eval vm_compute in ("<<<M746>>>" ++ check (runes_of_ascii "UXk")).
